@@ -23,7 +23,7 @@ OCM = SH[CM].osort()
 
 
 def mods(c):
-    return [(f, c.self) for f in BD_FIELDS] + ['g:vstate', 'g:bd_res']
+    return [(f, c.self) for f in BD_FIELDS] + ['g:vstate', 'g:bd_res', 'g:bd_resv']
 
 
 CONTRACTS = []
@@ -38,6 +38,7 @@ CONTRACTS.append(Contract(
         ('locked-are-registered', ForAll([x], Implies(
             z3.Contains(c.res, z3.Unit(x)), OCM.is_some(c.new(CM, c.self)[x])))),
         ('one-more-reservation', c.gnew('bd_res') == c.gold('bd_res') + 1),
+        ('this-path-reserved', c.gnew('bd_resv') == z3.Store(c.gold('bd_resv'), c.filename, True)),
     ],
     modifies=mods,
     notes='reserves the file and its unreserved ancestors; returns the ancestors out of '
@@ -45,7 +46,9 @@ CONTRACTS.append(Contract(
 CONTRACTS.append(Contract(
     M + 'error_building_file', props=['C04', 'C10'], trusted=True,
     params={'self': BD, 'filename': STR},
-    ensures=lambda c: [('one-reservation-less', c.gnew('bd_res') == c.gold('bd_res') - 1)],
+    ensures=lambda c: [('one-reservation-less', c.gnew('bd_res') == c.gold('bd_res') - 1),
+                       ('this-path-released',
+                        c.gnew('bd_resv') == z3.Store(c.gold('bd_resv'), c.filename, False))],
     modifies=mods,
     notes='releases the reservation of a file reserved by started_building_file; never raises '
           'under that protocol'))
